@@ -775,3 +775,187 @@ Proof.
   - simpl. lia.
   - simpl. lia.
 Qed.
+
+(* ================================================================== Part 3: metadata log *)
+Definition op_tu (o : op) : Z :=
+  match o with Txn _ _ _ tu _ => tu | DeleteSnap _ tu _ => tu | SetRetention _ tu _ => tu | SetPrevMax _ tu _ => tu end.
+
+Lemma expire_mlog : forall c m, mlog (expire c m) = mlog m. Proof. reflexivity. Qed.
+Lemma apply_retention_mlog : forall m, mlog (apply_retention m) = mlog m.
+Proof. intros m. destruct (apply_retention_cases m) as [->|[n [_ [_ ->]]]]; reflexivity. Qed.
+Lemma create_snapshot_mlog : forall m id t ml cut m', create_snapshot m id t ml cut = Some m' -> mlog m' = mlog m.
+Proof.
+  intros m id t ml cut m' H. unfold create_snapshot in H. destruct (existsb _ _); [|discriminate]. inversion H; subst.
+  rewrite apply_retention_mlog. destruct cut; reflexivity.
+Qed.
+Lemma delete_snapshot_mlog : forall m id m', delete_snapshot m id = Some m' -> mlog m' = mlog m.
+Proof.
+  intros m id m' H. unfold delete_snapshot in H. destruct (remove_first id (snaps m)); [|discriminate].
+  inversion H; subst. destruct (opt_eqb (cur m) (Some id)); reflexivity.
+Qed.
+
+Lemma step_full_commit_shape : forall st o,
+  (snd (fst (step_full st o)) = Committed /\
+   exists new, fst (fst (step_full st o)) = md_commit st new (op_tu o) (op_file o) /\ mlog new = mlog (md st)) \/
+  (snd (fst (step_full st o)) <> Committed /\ fst (fst (step_full st o)) = st).
+Proof.
+  intros st o. destruct o as [ops id t tu f|id tu f|v tu f|v tu f].
+  - destruct (step_full_txn st ops id t tu f) as [[_ ->]|[->| ->]].
+    + right. split; [discriminate|reflexivity].
+    + left. split; [reflexivity|]. eexists. split; [reflexivity|]. destruct (tx_expire ops); reflexivity.
+    + unfold txn_fileops. destruct (base_manifests (md st)); [|right; split; [discriminate|reflexivity]]. cbv zeta.
+      destruct (create_snapshot _ _ _ _ _) as [m'|] eqn:E; [|right; split; [discriminate|reflexivity]].
+      left. split; [reflexivity|]. exists m'. split; [reflexivity|]. eapply create_snapshot_mlog. exact E.
+  - unfold step_full. destruct (delete_snapshot (md st) id) as [m'|] eqn:E.
+    + left. split; [reflexivity|]. exists m'. split; [reflexivity|]. eapply delete_snapshot_mlog. exact E.
+    + right. split; [discriminate|reflexivity].
+  - left. split; [reflexivity|]. eexists. split; [reflexivity|reflexivity].
+  - left. split; [reflexivity|]. eexists. split; [reflexivity|reflexivity].
+Qed.
+
+Record MInv (files : list Z) (st : state) (g : ghost) : Prop := {
+  m_ok : mlog_ok (versions g) st;
+  m_ne : versions g <> [];
+  m_nd : NoDup (map snd (versions g));
+  m_used : incl (map snd (versions g)) files
+}.
+
+Lemma removelast_snoc : forall (A : Type) (l : list A) x, removelast (l ++ [x]) = l.
+Proof. intros. apply removelast_last. Qed.
+
+Lemma last_snoc : forall (A : Type) (l : list A) x d, last (l ++ [x]) d = x.
+Proof. intros. apply last_last. Qed.
+
+Lemma append_mlog_nodedupe : forall p log lu cf,
+  ~ In cf (map snd log) ->
+  exists pre, log ++ [(lu, cf)] = pre ++ append_mlog p log lu cf /\
+  (1 <= mlog_max p -> Z.of_nat (length (append_mlog p log lu cf)) <= mlog_max p).
+Proof.
+  intros p log lu cf Hnin. unfold append_mlog.
+  assert (Hd : match rev log with e :: _ => snd e =? cf | [] => false end = false).
+  { destruct (rev log) as [|e r] eqn:E; [reflexivity|]. apply Z.eqb_neq. intro He. apply Hnin.
+    apply in_map_iff. exists e. split; [exact He|]. apply in_rev. rewrite E. left. reflexivity. }
+  rewrite Hd.
+  destruct ((1 <=? mlog_max p) && (mlog_max p <? Z.of_nat (length (log ++ [(lu, cf)])))) eqn:Eb.
+  - apply andb_true_iff in Eb. destruct Eb as [E1 E2]. apply Z.leb_le in E1. apply Z.ltb_lt in E2.
+    destruct (lastn_suffix _ (Z.to_nat (mlog_max p)) (log ++ [(lu, cf)])) as [pre Hpre].
+    exists pre. split; [exact Hpre|]. intros _. rewrite lastn_length; lia.
+  - exists []. split; [reflexivity|]. intros H1. apply andb_false_iff in Eb. destruct Eb as [Eb|Eb].
+    + apply Z.leb_gt in Eb. lia.
+    + apply Z.ltb_ge in Eb. exact Eb.
+Qed.
+
+Lemma gstep_minv : forall files st g o, MInv files st g -> ~ In (op_file o) files ->
+  MInv (files ++ [op_file o]) (fst (gstep (st, g) o)) (snd (gstep (st, g) o)).
+Proof.
+  intros files st g o M Hf. unfold gstep.
+  destruct (step_full_commit_shape st o) as [[Hoc [new [Hst Hml]]]|[Hoc Hst]];
+    destruct (step_full st o) as [[st' oc] ns]; simpl in *; subst.
+  - destruct M as [[[older Hold] [Hlast Hb]] Hne Hnd Hu]. constructor; simpl.
+    + assert (Hnin : ~ In (curfile st) (map snd (mlog new))).
+      { rewrite Hml. intro Hin.
+        destruct (exists_last Hne) as [vs [v Hv]]. rewrite Hv in Hold, Hlast, Hnd.
+        rewrite removelast_snoc in Hold. rewrite last_snoc in Hlast. subst v.
+        rewrite map_app in Hnd. simpl in Hnd. destruct (NoDup_app_inv _ _ _ Hnd) as [_ [_ Hx]].
+        apply (Hx (curfile st)); [left; reflexivity|]. rewrite Hold, map_app. apply in_or_app. right. exact Hin. }
+      destruct (append_mlog_nodedupe (prevmax new) (mlog new) (last_updated (md st)) (curfile st) Hnin) as [pre [Hpre Hbound]].
+      unfold mlog_ok. simpl. split; [|split; [|exact Hbound]].
+      * rewrite removelast_snoc.
+        destruct (exists_last Hne) as [vs [v Hv]]. rewrite Hv in Hold, Hlast |- *.
+        rewrite removelast_snoc in Hold. rewrite last_snoc in Hlast. subst v.
+        exists (older ++ pre). rewrite <- app_assoc, <- Hpre, Hml, app_assoc, <- Hold. reflexivity.
+      * rewrite last_snoc. reflexivity.
+    + intro H. apply app_eq_nil in H. destruct H as [_ H]. discriminate.
+    + rewrite map_app. simpl. apply NoDup_snoc; [exact Hnd|]. intro Hin. apply Hf. apply Hu. exact Hin.
+    + rewrite map_app. simpl. intros x Hx. apply in_app_or in Hx. apply in_or_app. destruct Hx as [Hx|Hx]; [left; apply Hu; exact Hx|right; exact Hx].
+  - assert (Hv : match oc with Committed => versions g ++ [(last_updated (md st), curfile st)] | _ => versions g end = versions g)
+      by (destruct oc; congruence).
+    destruct M as [Hok Hne Hnd Hu]. constructor; simpl; rewrite Hv; try assumption.
+    intros x Hx. apply in_or_app. left. apply Hu. exact Hx.
+Qed.
+
+Theorem grun_minv : forall t0 f0 ops, fresh_ops f0 ops ->
+  MInv (f0 :: map op_file ops) (fst (grun (ginit t0 f0) ops)) (snd (grun (ginit t0 f0) ops)).
+Proof.
+  intros t0 f0 ops. induction ops as [|o ops IH] using rev_ind; intros Hf.
+  - simpl. constructor; simpl.
+    + unfold mlog_ok. simpl. split; [exists []; reflexivity|]. split; [reflexivity|]. intros _. unfold mlog_max, DEFAULT_PREVMAX. simpl. lia.
+    + discriminate.
+    + constructor; [intros []|constructor].
+    + intros x Hx. exact Hx.
+  - apply fresh_ops_snoc in Hf. destruct Hf as [Hf [_ Hfile]].
+    rewrite grun_snoc, map_app. simpl map.
+    destruct (grun (ginit t0 f0) ops) as [st g] eqn:E. simpl in IH.
+    change (f0 :: map op_file ops ++ [op_file o]) with ((f0 :: map op_file ops) ++ [op_file o]).
+    apply (gstep_minv _ st g o (IH Hf) Hfile).
+Qed.
+
+Theorem mlog_invariant : forall t0 f0 ops, fresh_ops f0 ops -> mlog_ok (versions_of t0 f0 ops) (replay t0 f0 ops).
+Proof.
+  intros t0 f0 ops Hf. pose proof (grun_minv t0 f0 ops Hf) as M. rewrite <- grun_fst.
+  unfold versions_of, ghost_of. apply (m_ok _ _ _ M).
+Qed.
+
+(* ================================================================== current snapshot is never expired *)
+Theorem expire_keeps_current : forall c m x, cur m = Some x -> In x (sids m) ->
+  cur (expire c m) = Some x /\ In x (sids (expire c m)).
+Proof.
+  intros c m x Hc Hx. split; [exact Hc|]. rewrite expire_as_prune, prune_sids. apply expire_current_kept; assumption.
+Qed.
+
+Theorem retention_keeps_current : forall m x, cur m = Some x -> In x (sids m) ->
+  cur (apply_retention m) = Some x /\ In x (sids (apply_retention m)).
+Proof.
+  intros m x Hc Hx. rewrite apply_retention_cur. split; [exact Hc|].
+  destruct (apply_retention_cases m) as [->|[n [_ [_ ->]]]]; [exact Hx|].
+  rewrite prune_sids. apply ret_surviving_sids; [exact Hx|]. apply ret_current_kept; assumption.
+Qed.
+
+(* ================================================================== delete_files removes exactly the named files *)
+Lemma mem_path_In : forall p l, mem_path p l = true <-> In p l.
+Proof.
+  intros p l. unfold mem_path. rewrite existsb_exists. split.
+  - intros [q [Hq He]]. unfold path_eqb in He. apply andb_true_iff in He. destruct He as [H1 H2].
+    apply Z.eqb_eq in H1. apply Z.eqb_eq in H2. destruct p, q. simpl in *. subst. exact Hq.
+  - intros H. exists p. split; [exact H|]. unfold path_eqb. rewrite !Z.eqb_refl. reflexivity.
+Qed.
+
+Lemma named_spec : forall ps e, named ps e = true <-> exists p, In p ps /\ lstrip p = lstrip (epath e).
+Proof.
+  intros ps e. unfold named. rewrite mem_path_In, in_map_iff. split.
+  - intros [p [Hp Hin]]. exists p. split; [exact Hin|exact Hp].
+  - intros [p [Hin Hp]]. exists p. split; [exact Hp|exact Hin].
+Qed.
+
+Theorem delete_exact : forall ps mfs,
+  (* the surviving entries are exactly the entries not named, in order, with path / adding snapshot / sequence number kept *)
+  map ekey (entries (apply_deletes ps mfs)) = map ekey (filter (fun e => negb (named ps e)) (entries mfs))
+  (* a manifest is either carried over untouched or rewritten, non-empty, with every entry EXISTING *)
+  /\ (forall mf', In mf' (apply_deletes ps mfs) -> In mf' mfs \/ (mf' <> [] /\ Forall (fun e => estatus e = ST_EXISTING) mf'))
+  (* a file is named by a delete iff one of the given paths equals its path up to leading '/' *)
+  /\ (forall e, named ps e = true <-> exists p, In p ps /\ lstrip p = lstrip (epath e)).
+Proof.
+  intros ps mfs. split; [apply apply_deletes_keys|]. split; [apply apply_deletes_shape|apply named_spec].
+Qed.
+
+(* sequence numbers of the retained snapshots, read in snapshot-log (= commit) order, strictly increase *)
+Lemma sorted_map_filter : forall (A : Type) (f : A -> Z) (P : A -> bool) (l : list A),
+  StronglySorted Z.lt (map f l) -> StronglySorted Z.lt (map f (filter P l)).
+Proof.
+  intros A f P l. induction l as [|x l IH]; simpl; intros H; [constructor|].
+  inversion H; subst. destruct (P x); simpl; [|apply IH; assumption].
+  constructor; [apply IH; assumption|].
+  apply Forall_forall. intros y Hy. apply in_map_iff in Hy. destruct Hy as [z [<- Hz]].
+  rewrite Forall_forall in H3. apply H3. apply in_map. eapply filter_In_sub. exact Hz.
+Qed.
+
+Theorem wf_seq_in_log_order : forall H m, WF H m ->
+  StronglySorted Z.lt (map seq (retained_in_commit_order H m)) /\
+  map snd (slog m) = map sid (retained_in_commit_order H m) /\
+  (forall s, In s (snaps m) -> exists h, In h (retained_in_commit_order H m) /\ sid h = sid s /\ seq h = seq s).
+Proof.
+  intros H m [_ [_ [[Hnd Hret] [[Hs _] Hslog]]]]. split; [apply sorted_map_filter; exact Hs|]. split.
+  - rewrite Hslog, map_map. reflexivity.
+  - intros s Hin. destruct (Hret s Hin) as [h [Hh [Hsid [_ [Hseq _]]]]]. exists h. split; [|split; assumption].
+    unfold retained_in_commit_order. apply filter_In. split; [exact Hh|]. apply memZ_In. rewrite Hsid. unfold sids. apply in_map. exact Hin.
+Qed.
